@@ -155,8 +155,13 @@ Fixpoint omap {A B} (f : A -> option B) (l : list A) : option (list B) :=
 (* location of bucket k is abstract (its label); label resolution belongs to the assembler (C16) *)
 Definition build_dense (n : Z) (sol : list bucket) (fns : list entry) : option dense_table :=
   let F := fn_metadata_bytes fns in
-  match omap (fun i => option_map (fun b => header_word (b_magic b) (b_id b) (zlen (b_ids b)))
-                                  (find (fun b => b_id b =? i) sol)) (zrange 0 n),
+  if negb (4 + 2 + F <=? 32) then None else        (* assert dst >= 0 *)
+  match omap (fun i => match find (fun b => b_id b =? i) sol with
+                       | Some b =>      (* magic.to_bytes(2), bucket_size.to_bytes(1): OverflowError -> None *)
+                           if (b_magic b <? 65536) && (zlen (b_ids b) <? 256)
+                           then Some (header_word (b_magic b) (b_id b) (zlen (b_ids b))) else None
+                       | None => None   (* assert i == bucket_id *)
+                       end) (zrange 0 n),
         omap (fun b => option_map (fun es => (b_id b, map (info_word F) es))
                                   (entries_of fns (image_order (b_ids b) (b_magic b)))) sol with
   | Some hs, Some ds => Some (mkDense n F hs ds)
